@@ -172,7 +172,7 @@ def singlelane_conformance(ck, n_scen, reps, thorough, salt=71):
         for line in ((False, True) if thorough else ((True,) if j in (0, 3) else (False,))):
             k += 1
             items.append({'id': k, 'sc': {'cap': cap, 'ops': [wo, ro], 'tmo': [0.01, 0.02], 'line': line}, 'strategy': 'dfs',
-                          'bound': 3 if thorough else 2, 'max_runs': 20000 if thorough else 3000})
+                          'bound': 3 if thorough else 2, 'max_runs': 6000 if thorough else 3000})
     out = ck.run_binder('singlelane', items, timeout=2400)
     ck.evaluations += int(out.get('n_exec', 0))
     for h in out.get('crashes', []):
@@ -184,6 +184,32 @@ def singlelane_conformance(ck, n_scen, reps, thorough, salt=71):
                 'SingleLaneTrace', sl_cfg(spec='TraceSpec', constraint='Progress', postcondition='Report', deadlock=False),
                 out.get('traces', []))
     ck.legs[-1]['dfs_runs'] = int(out.get('dfs_runs', 0))
+    # which corners of the model the real executions went through (evidence; X04 requires the rarest one)
+    corners = {'woken_by_notify': 0, 'wait_timed_out': 0, 'timed_out_although_notified': 0, 'refused_after_close': 0,
+               'ended_stuck': 0}
+    for t in out.get('traces', []):
+        waiting, notified = set(), {}
+        for e in t['ev']:
+            if e['ev'] == 'Wait':
+                waiting.add(e['t'])
+                notified[e['t']] = False
+            elif e['ev'] == 'Notify' and e['n'] == 1:
+                for w in waiting:
+                    if w != e['t']:
+                        notified[w] = True
+            elif e['ev'] == 'Woke':
+                waiting.discard(e['t'])
+                if e['gotit']:
+                    corners['woken_by_notify'] += 1
+                else:
+                    corners['wait_timed_out'] += 1
+                    corners['timed_out_although_notified'] += bool(notified.get(e['t']))
+            elif e['ev'] == 'Ret' and not e['ok'] and e['n'] == 1:
+                corners['refused_after_close'] += 1
+            elif e['ev'] == 'Stuck':
+                corners['ended_stuck'] += 1
+    ck.legs[-1]['corners'] = corners
+    return corners
 
 
 def singlelane_component(ck):
@@ -210,7 +236,10 @@ def x04(ck, replay=None):
                  'SingleLane', sl_cfg(['Bound'], nw=2, init='InitTwoWriters'), 'invariant', 'Bound')
     for goal in ('Trap_SwallowedNotify', 'Trap_FailWithRoom', 'Trap_WriterWoken', 'Trap_ReaderWoken', 'Trap_RefusedWhilePeerBlocked'):
         ck.trap(goal, 'SingleLane', sl_cfg([goal], maxops=2 if goal != 'Trap_FailWithRoom' else 3, maxcap=1))
-    singlelane_conformance(ck, 1200 if thorough else 150, 8 if thorough else 4, thorough)
+    corners = singlelane_conformance(ck, 1200 if thorough else 150, 8 if thorough else 4, thorough)
+    if not ck.violations and min(corners.values()) == 0:
+        from mbt.framework import Machinery
+        raise Machinery(f'X04: a corner of the model was never exercised on the real class: {corners}')
     ck.assumptions += ['one writer thread and one reader thread (what the class is documented for, and how the library uses it); '
                        'line mode preempts before every source line of _queues.py, inside a line only at lock operations']
     ck.finish_rc = ck.finish(rule='capacity 0..3 x programs of 1..5 attempts per side (block / timed / nowait) x schedules; every '
